@@ -473,46 +473,55 @@ pub fn run_c07(ctx: &Ctx, rep: &mut Report) {
     let miri = ctx.variant == Variant::Miri;
     let corpus = corpus_positions();
     // pinned regression inputs always run first (tiny): the crowded FEN from DESIGN section 1.3 and relatives
-    ctx.cases(rep, "directed", 1, |_g, rng, rep| {
-        if ctx.shard != 0 {
+    let fens = [
+        "7k/8/PPPPPPPP/8/PPPPPPPP/8/PPPP4/K7 w - - 0 1",
+        "k7/pppp4/8/pppppppp/8/pppppppp/8/7K b - - 0 1",
+        "QQQQQQQk/QQQQQQ2/QQQQQQQQ/QQQQQQQQ/QQQQQQQQ/QQQQQQQQ/QQQQQQQQ/KQQQQQQQ w - - 0 1",
+        "NNNNNNNN/NNNNNNNN/NNNNNNNN/NNNNNNNN/NNNNNNNN/NNNNNNNN/NNNNNN2/KNNNNN1k w - - 0 1",
+        "7k/8/8/PpPpPpPp/8/RRRRRRRR/NNNNNNNN/KBBBBBBB w - b6 0 1",
+        "8/8/8/8/8/8/8/8 w - - 0 1",
+        "kK6/8/8/8/8/8/8/8 w - - 0 1",
+        "k6K/8/8/8/8/8/8/8 w KQkq - 0 1",
+        "4k3/8/8/8/8/8/8/4K3 w - e3 0 1",
+        "4k3/8/8/8/4P3/8/8/4K3 b - e3 0 1",
+        "4k3/8/8/8/3pP3/8/8/4K3 b - e3 0 1",
+        "4k3/8/8/8/3pP3/8/8/4K3 w - e3 0 1",
+        "4k3/8/8/3pP3/8/8/8/4K3 w - d6 0 1",
+        "rnbqkbnr/pppppppp/8/8/8/8/PPPPPPPP/RNBQKBNR w KQkq - 0 1",
+        "rnbqkbnr/pppppppp/8/8/8/8/PPPPPPPP/RNBQKBNR w KQkq -",
+        "rnbqkbnr/pppppppp/8/8/8/8/PPPPPPPP/RNBQKBNR w KQkq",
+        "",
+        " ",
+        "   ",
+        "8/8/8/8/8/8/8/8/8/8/8/8/8/8/8/8/4k2K w - - 0 1",
+        "99999999/k7/K7 w - - 0 1",
+        "7k/8/1P1P1P1P/P1P1P1P1/1P1P1P1P/P1P1P1P1/1P1P1P1P/K7 w - - 0 1",
+        "k7/8/8/8/8/8/NNNNNNNN/KNNNNNNN w - - 0 1",
+        "7k/PPPPPPPP/8/8/8/8/PPPPPPPP/K7 w - - 0 1",
+    ];
+    // pinned regression inputs always run first (tiny): the crowded FEN from DESIGN section 1.3 and relatives;
+    // one input per case so that the shards share them
+    let nd = fens.len() as u64;
+    ctx.cases(rep, "directed", (nd + ctx.nshards as u64 - 1) / ctx.nshards as u64, |gid, _rng, rep| {
+        if gid >= nd {
             return;
         }
-        let fens = [
-            "7k/8/PPPPPPPP/8/PPPPPPPP/8/PPPP4/K7 w - - 0 1",
-            "k7/pppp4/8/pppppppp/8/pppppppp/8/7K b - - 0 1",
-            "QQQQQQQk/QQQQQQ2/QQQQQQQQ/QQQQQQQQ/QQQQQQQQ/QQQQQQQQ/QQQQQQQQ/KQQQQQQQ w - - 0 1",
-            "NNNNNNNN/NNNNNNNN/NNNNNNNN/NNNNNNNN/NNNNNNNN/NNNNNNNN/NNNNNN2/KNNNNN1k w - - 0 1",
-            "7k/8/8/PpPpPpPp/8/RRRRRRRR/NNNNNNNN/KBBBBBBB w - b6 0 1",
-            "8/8/8/8/8/8/8/8 w - - 0 1",
-            "kK6/8/8/8/8/8/8/8 w - - 0 1",
-            "k6K/8/8/8/8/8/8/8 w KQkq - 0 1",
-            "4k3/8/8/8/8/8/8/4K3 w - e3 0 1",
-            "4k3/8/8/8/4P3/8/8/4K3 b - e3 0 1",
-            "4k3/8/8/8/3pP3/8/8/4K3 b - e3 0 1",
-            "4k3/8/8/8/3pP3/8/8/4K3 w - e3 0 1",
-            "4k3/8/8/3pP3/8/8/8/4K3 w - d6 0 1",
-            "rnbqkbnr/pppppppp/8/8/8/8/PPPPPPPP/RNBQKBNR w KQkq - 0 1",
-            "rnbqkbnr/pppppppp/8/8/8/8/PPPPPPPP/RNBQKBNR w KQkq -",
-            "rnbqkbnr/pppppppp/8/8/8/8/PPPPPPPP/RNBQKBNR w KQkq",
-            "",
-            " ",
-            "   ",
-            "8/8/8/8/8/8/8/8/8/8/8/8/8/8/8/8/4k2K w - - 0 1",
-            "99999999/k7/K7 w - - 0 1",
-        ];
-        for f in fens.iter() {
-            judge_text(f, false, rep);
-            rep.count("ev_directed_inputs");
+        let f = fens[gid as usize];
+        judge_text(f, false, rep);
+        rep.count("ev_directed_inputs");
+        if gid == 0 {
+            rep.sample("7k/8/PPPPPPPP/8/PPPPPPPP/8/PPPP4/K7 w - - 0 1 (28 pawns: submitted, then used if accepted)".to_string());
         }
-        for _ in 0..(if miri { 6 } else { 300 }) {
+    });
+    ctx.cases(rep, "crowded", if miri { 1 } else { 20 }, |_g, rng, rep| {
+        for _ in 0..(if miri { 1 } else { 15 }) {
             let bb = crowded_builder(rng);
             rep.count("ev_crowded_submitted");
             judge_builder(&bb, "crowded", false, rep);
         }
-        rep.sample("7k/8/PPPPPPPP/8/PPPPPPPP/8/PPPP4/K7 w - - 0 1 (28 pawns: submitted, then used if accepted)".to_string());
     });
     // text stream
-    let n = ctx.budget(2500, 60_000, 3, 1500);
+    let n = ctx.budget(2500, 60_000, 2, 1500);
     ctx.cases(rep, "text", n, |gid, rng, rep| {
         // a real position to start from
         let base = match rng.below(3) {
@@ -531,7 +540,7 @@ pub fn run_c07(ctx: &Ctx, rep: &mut Report) {
         if gid < 3 {
             rep.sample(format!("valid {:?} and mutants such as {:?}", valid_fen, mutate(rng, &valid_fen)));
         }
-        let per = if miri { 6 } else { 60 };
+        let per = if miri { 4 } else { 60 };
         for _ in 0..per {
             let text = match rng.below(10) {
                 0 | 1 | 2 | 3 | 4 => mutate(rng, &valid_fen),
@@ -572,9 +581,9 @@ pub fn run_c07(ctx: &Ctx, rep: &mut Report) {
         }
     });
     // builder stream: arbitrary states, crowded boards
-    let n = ctx.budget(1500, 40_000, 3, 1500);
+    let n = ctx.budget(1500, 40_000, 1, 1500);
     ctx.cases(rep, "builder", n, |gid, rng, rep| {
-        let per = if miri { 5 } else { 40 };
+        let per = if miri { 4 } else { 40 };
         for i in 0..per {
             if i % 4 == 0 {
                 let bb = crowded_builder(rng);
